@@ -593,6 +593,20 @@ func c09canon(t *BalTable, setBasic bool) {
 	}
 }
 
+// c09releasePath names the release path of a panic stack: which of the three anchored
+// mechanisms closed the channel the second time.
+func c09releasePath(stack string) string {
+	switch {
+	case strings.Contains(stack, "(*BalanceRR).Update"):
+		return "backend-update"
+	case strings.Contains(stack, "(*BalanceGslb).Reload"):
+		return "subcluster-reload"
+	case strings.Contains(stack, "(*BalanceGslb).Release"):
+		return "cluster-release"
+	}
+	return "other"
+}
+
 func c09closed(b *backend.BfeBackend) bool {
 	select {
 	case <-b.CloseChan():
@@ -762,7 +776,7 @@ func (w *c09world) apply(o c09op) (enabled bool, fatal bool) {
 	if p, val := vk.Guard(func() { rerr = w.t.BalTableReload(g, tb) }); p {
 		w.modelReload(n)
 		if strings.Contains(val, "close of closed channel") {
-			w.violation("release:double-close:"+o.kind, fmt.Sprintf("op %v: BalTableReload panicked: a backend was released a second time: %s", o, val))
+			w.violation("release:double-close:"+c09releasePath(val), fmt.Sprintf("op %v: BalTableReload panicked: a backend was released a second time: %s", o, val))
 		} else {
 			w.violation("reload:panic:"+vk.PanicSite(val), fmt.Sprintf("op %v: BalTableReload panicked: %s", o, val))
 		}
@@ -1376,7 +1390,7 @@ func c09e1run(scn c09scn, ch *vk.Chooser) (out vsched.Outcome, w *c09world, l *c
 func c09e1check(r *vk.Run, scn c09scn, id string, out vsched.Outcome, w *c09world, l *c09e1log) {
 	if out.Panic != "" {
 		if strings.Contains(out.Panic, "close of closed channel") {
-			r.Violation("e1:release:double-close", id, "scenario "+scn.name+": thread "+out.PanicThr+" closed a backend's channel a second time: "+out.Panic)
+			r.Violation("e1:release:double-close:"+c09releasePath(out.Panic), id, "scenario "+scn.name+": thread "+out.PanicThr+" closed a backend's channel a second time: "+out.Panic)
 		} else {
 			r.Violation("e1:panic:"+vk.PanicSite(out.Panic), id, "scenario "+scn.name+": panic in thread "+out.PanicThr+": "+out.Panic)
 		}
@@ -1519,13 +1533,7 @@ func c09partB(r *vk.Run) {
 	var passes []pass
 	if r.Thorough() {
 		all := c09scenarios(true)
-		var core []c09scn
-		for i, s := range c09scenarios(false) {
-			if i%4 == 0 {
-				core = append(core, s)
-			}
-		}
-		passes = []pass{{"all@2", 2, all}, {"core@3", 3, core}}
+		passes = []pass{{"all@2", 2, all}, {"core@3", 3, c09scenarios(false)}}
 	} else {
 		passes = []pass{{"quick@2", 2, c09scenarios(false)}}
 	}
@@ -1559,6 +1567,14 @@ func c09partB(r *vk.Run) {
 				if !orders[k] {
 					orders[k] = true
 					r.States(1)
+				}
+				if l.gotOK && c09closed(l.got) {
+					// the request looked its cluster up before a reload removed the backend: linearised before it
+					r.Outcome("e1:request-holds-backend-released-meanwhile")
+				} else if l.gotOK {
+					r.Outcome("e1:request-holds-live-backend")
+				} else {
+					r.Outcome("e1:request-got-no-backend")
 				}
 			}, func() bool { return r.Expired("e1 " + ps.name) })
 			r.Traces(n)
